@@ -22,13 +22,13 @@ import (
 // cachelayer (property C05): histories of search / monitored search / invalidate / enable / cleanup /
 // update / clock-advance operations against the real database.NewCachedDatabase / NewMonitoredDatabase.
 //
-//   cmd <command> <description> <keywords> <tags> <platforms> <pipeline>     stage one command (hex fields, lists "a,b" or nil)
-//   new c|m                      wrap the staged commands in a CachedDatabase / MonitoredDatabase
-//   update                       UpdateDatabase / LoadDatabaseWithMonitoring with the staged commands
-//   search  <q> <oracle> <Field=value>*      SearchWithOptionsAndCache
-//   msearch <q> <oracle> <Field=value>*      SearchWithOptionsAndMonitoring
-//   searchl <q> <oracle> <limit>             SearchWithCache          msearchl: SearchWithMonitoring
-//   inval | enable 0|1 | cleanup | adv <ns> | stats | order
+//	cmd <command> <description> <keywords> <tags> <platforms> <pipeline>     stage one command (hex fields, lists "a,b" or nil)
+//	new c|m                      wrap the staged commands in a CachedDatabase / MonitoredDatabase
+//	update                       UpdateDatabase / LoadDatabaseWithMonitoring with the staged commands
+//	search  <q> <oracle> <Field=value>*      SearchWithOptionsAndCache
+//	msearch <q> <oracle> <Field=value>*      SearchWithOptionsAndMonitoring
+//	searchl <q> <oracle> <limit>             SearchWithCache          msearchl: SearchWithMonitoring
+//	inval | enable 0|1 | cleanup | adv <ns> | stats | order
 //
 // <oracle> is the id of the answer of a fresh, uncached SearchUniversal for that request on the commands then in
 // force (computed at generation time by running the engine; "-" = no results).  The Lean model receives the
